@@ -37,6 +37,10 @@ class GarbageCollectionAborted(RuntimeError):
     pass
 
 
+class _MarkerUnreadable(Exception):
+    """An in-flight marker exists but its payload could not be read."""
+
+
 class GarbageCollector:
     """Identifies and removes orphaned files."""
 
@@ -179,8 +183,14 @@ class GarbageCollector:
 
         try:
             markers = self.storage.list_files(INFLIGHT_PATH)
-        except Exception:
-            markers = []
+        except Exception as e:
+            # Not knowing which files are in flight is not the same as knowing
+            # there are none: proceeding with an empty marker set would delete
+            # the files of every running transaction. Fail closed.
+            raise GarbageCollectionAborted(
+                f"Aborting GC: cannot list in-flight markers under {INFLIGHT_PATH}: {e}. "
+                f"Nothing was deleted."
+            ) from e
 
         for marker_path in markers:
             norm_marker = self._normalize_path(marker_path)
@@ -193,7 +203,16 @@ class GarbageCollector:
             basename = norm_marker.rsplit("/", 1)[-1]
             if not basename.endswith(".inflight"):
                 continue
-            data_rel = self._marker_target(norm_marker, basename)
+            try:
+                data_rel = self._marker_target(norm_marker, basename)
+            except _MarkerUnreadable:
+                # The marker exists but its payload could not be read, so which
+                # file it protects is unknown. Keep protection in force for
+                # every location a file of that name can live in.
+                name = basename[: -len(".inflight")]
+                protected.add(f"data/{name}")
+                protected.add(f"{self.file_manager.manifests_path}/{name}")
+                continue
 
             if age_ok:
                 protected.add(data_rel)
@@ -221,7 +240,14 @@ class GarbageCollector:
         """
         fallback = f"data/{basename[: -len('.inflight')]}"
         try:
-            payload = json.loads(self.storage.read_file(marker_path).decode("utf-8"))
+            raw = self.storage.read_file(marker_path)
+        except FileNotFoundError:
+            # Marker vanished since it was listed: its transaction finished.
+            return fallback
+        except Exception as e:
+            raise _MarkerUnreadable(str(e)) from e
+        try:
+            payload = json.loads(raw.decode("utf-8"))
             target = payload.get("file_path")
         except Exception:
             return fallback
